@@ -51,20 +51,8 @@ Qed.
 
 Lemma prog_head o : exists t, prog o = MLock :: t /\ tail_ok t.
 Proof.
-  destruct o as [[]|[]|[]|h|h j|r]; cbn [prog]; eexists; (split; [reflexivity|]).
-  all: unfold tail_ok.
-  - exists [MPush data; MWrite (WData data)]. split; [reflexivity|repeat constructor].
-  - exists [MWrite WRequest]. split; [reflexivity|repeat constructor].
-  - exists [MWrite (WData data)]. split; [reflexivity|repeat constructor].
-  - exists [MPush data; MWrite (WData data)]. split; [reflexivity|repeat constructor].
-  - exists [MWrite WRequest]. split; [reflexivity|repeat constructor].
-  - exists [MWrite (WData data)]. split; [reflexivity|repeat constructor].
-  - exists [MPush data; MWriteFail; MDrop]. split; [reflexivity|repeat constructor].
-  - exists [MWriteFail]. split; [reflexivity|repeat constructor].
-  - exists [MWriteFail]. split; [reflexivity|repeat constructor].
-  - exists [MAck h None]. split; [reflexivity|repeat constructor].
-  - exists [MAck h (Some j)]. split; [reflexivity|repeat constructor].
-  - exists []. split; [reflexivity|constructor].
+  destruct o as [[]|[]|[]|h|h j| | |r]; cbn [prog]; eexists; (split; [reflexivity|]);
+    match goal with |- tail_ok ?t => exists (removelast t); cbn; split; [reflexivity|repeat constructor] end.
 Qed.
 
 (* a critical section run to its end is the step of Model/Ack.v *)
@@ -72,7 +60,7 @@ Lemma finish_prog o q wire : is_enabled o = false ->
   finish q wire (tl (prog o)) = (fst (fst (a_step (q, true) o)), wire ++ snd (a_step (q, true) o)) /\
   snd (fst (a_step (q, true) o)) = true.
 Proof.
-  intros He. destruct o as [[]|[]|[]|h|h j|r]; try discriminate; cbn [prog tl finish a_step a_send a_refused fst snd];
+  intros He. destruct o as [[]|[]|[]|h|h j| | |r]; try discriminate; cbn [prog tl finish a_step a_send a_refused fst snd];
     rewrite ?app_nil_r; auto.
   - unfold a_ack. cbn [fst snd]. destruct (q_ack q h) as [q' w]. cbn. auto.
   - unfold a_ack_refused, a_ack. cbn [fst snd]. destruct (q_ack q h) as [q' w]. cbn. auto.
